@@ -552,6 +552,10 @@ func DrawPool(t *rapid.T, legacy bool) Pool {
 		}
 		add(&p.Docs, []byte(d.Text(false)))
 	}
+	if gen.OneIn(t, 4, "nulldoc") {
+		// a null root: Apply on it fails late (at encoding time) - an error path of its own
+		add(&p.Docs, []byte(rapid.SampledFrom([]string{"null", " null ", "null\n"}).Draw(t, "nulltext")))
+	}
 	np := gen.Uniform(t, 1, 3, "npatches")
 	for i := 0; i < np; i++ {
 		g := gen.NewOpGen(true)
